@@ -172,8 +172,10 @@ func H_Shutdown() {
 	rt, err := runtime.NewRuntime(st, zap.NewNop(), options.WithMetrics(false))
 	verif.Assert(err == nil, "runtime created")
 	nf := 1
-	if verif.Tier() == "thorough" {
+	if verif.Tier() == "thorough" && verif.Choose("longerScripts", 2) == 1 {
+		// thorough = (scripts of <=1 fault, delay bound 1) + (scripts of <=2 faults, delay bound 0)
 		nf = 2
+		verif.SetPreemptions(0)
 	}
 	f := &faulty{script: script("controllerFault", nf)}
 	m := &mirror{}
